@@ -666,6 +666,7 @@ type c13Req struct {
 	Headers []c13Hdr `json:"headers"`
 	Body    string   `json:"body,omitempty"`
 	Peer    string   `json:"peer"`
+	Chunked bool     `json:"chunked,omitempty"` // HTTP entry points only: the body is streamed (Transfer-Encoding: chunked, no Content-Length)
 	QPath   bool     `json:"qpath,omitempty"` // Envoy only: the documented shape of the CheckRequest: path = request target INCLUDING the query, query empty
 	Pack    string   `json:"pack,omitempty"` // Envoy only: body in the string field ("body", Envoy's default), in raw_body ("raw", ""), in both ("both")
 }
@@ -810,7 +811,11 @@ func c13GenReq(r *vf.Rand, rules []c13Rule) c13Case {
 				q.Method = "POST"
 			}
 
-			q.Headers = append(q.Headers, c13Hdr{"Content-Length", strconv.Itoa(len(q.Body))})
+			if r.Chance(40) {
+				q.Chunked = true // streamed: no Content-Length
+			} else {
+				q.Headers = append(q.Headers, c13Hdr{"Content-Length", strconv.Itoa(len(q.Body))})
+			}
 		}
 	}
 
@@ -950,6 +955,23 @@ func (q c13Req) raw() string {
 
 	for _, h := range q.Headers {
 		sb.WriteString(h.N + ": " + h.V + "\r\n")
+	}
+
+	// conveyance of the body on the HTTP side: sized (the header list carries Content-Length) or streamed in
+	// chunks of at most 7 bytes (the header list carries no Content-Length; net/http removes Transfer-Encoding
+	// from the header map, so the logical header list is the same for all entry points)
+	if q.Chunked && q.Body != "" {
+		sb.WriteString("Transfer-Encoding: chunked\r\n\r\n")
+
+		for rest := q.Body; rest != ""; {
+			n := min(len(rest), 7)
+			sb.WriteString(fmt.Sprintf("%x\r\n%s\r\n", n, rest[:n]))
+			rest = rest[n:]
+		}
+
+		sb.WriteString("0\r\n\r\n")
+
+		return sb.String()
 	}
 
 	sb.WriteString("\r\n" + q.Body)
@@ -1693,6 +1715,13 @@ func c13Tags(c c13Case, o c13Obs) ([]string, bool) {
 
 	if c.Req.Body != "" {
 		add("body:present")
+
+		if c.Req.Chunked {
+			add("http-body:chunked")
+		} else {
+			add("http-body:content-length")
+		}
+
 		add("envoy-body-field:" + map[string]string{"body": "body", "both": "both"}[c.Req.Pack] + map[bool]string{true: "raw_body"}[c.Req.Pack != "body" && c.Req.Pack != "both"])
 	}
 
@@ -1873,6 +1902,20 @@ func c13Corpus() ([]c13Rule, []c13Case) {
 	cs := func(ri int, caps [][2]string, r c13Req) c13Case { return c13Case{Rule: &rules[ri], Hit: true, Caps: caps, Req: r} }
 	packed := func(p string, c c13Case) c13Case { c.Req.Pack = p; return c }
 	qpath := func(c c13Case) c13Case { c.Req.QPath = true; return c }
+	chunked := func(c c13Case) c13Case {
+		c.Req.Chunked = true
+		kept := c.Req.Headers[:0:0]
+
+		for _, h := range c.Req.Headers {
+			if h.N != "Content-Length" {
+				kept = append(kept, h)
+			}
+		}
+
+		c.Req.Headers = kept
+
+		return c
+	}
 	cp := func(kv ...string) [][2]string {
 		out := [][2]string{}
 		for i := 0; i+1 < len(kv); i += 2 {
@@ -1925,6 +1968,8 @@ func c13Corpus() ([]c13Rule, []c13Case) {
 		qpath(cs(0, cp("name", "abc"), rq("GET", "a.example.com", "/c0/abc", "x=1", false, ""))),
 		qpath(cs(3, nil, rq("GET", "a.example.com", "/c3/lit", "x=1", false, ""))),
 		qpath(cs(3, nil, rq("GET", "a.example.com", "/c3/lit", "", false, ""))),
+		// 35: a streamed body (Transfer-Encoding: chunked, ContentLength == -1) is decoded like a sized one (seeded change C13-3)
+		chunked(cs(8, nil, rq("POST", "a.example.com", "/c8/lit", "", false, `{"user":"u1","n":[1,2]}`, "Content-Type", "application/json"))),
 	}
 
 	return rules, cases
